@@ -8,6 +8,8 @@ CONSTANTS
   Threshold = 1000000000
   PktLens = {1}
   ExtInfo = TRUE
+  NetCap = 1000000
+  ReleaseAfterFlush = FALSE
 INVARIANTS K1Wire K2State K3 QueueOnlyInKex
 CONSTRAINT HWM
 VIEW TraceView
